@@ -22,7 +22,7 @@ EXTRA_VARIANTS = {'quick': [], 'thorough': ['asan', 'plain']}
 
 
 def plan(ctx):
-    n = ctx.n(700, 30000)
+    n = ctx.n(2000, 40000)
     items = [('miri', 0)]
     items += [('fuzz', engine.stable_hash((ctx.seed, 'c03', i))) for i in range(n)]
     if ctx.tier == 'thorough':
